@@ -234,7 +234,7 @@ def _ob_fexact(name, is_t):
     return run
 
 
-def obligations(tier, seed):
+def _obligations(tier, seed):
     obs = []
     for name in spec.TNORMS:
         for law in LAWS_T:
@@ -253,3 +253,8 @@ def obligations(tier, seed):
     for name in F_EXACT:
         obs.append((f"{name}/F/exact", _ob_fexact(name, name in spec.TNORMS)))
     return obs
+
+
+def obligations(tier, seed):
+    from . import conform
+    return _obligations(tier, seed) + conform.obligations(PROPERTY, tier)
